@@ -304,6 +304,10 @@ func (m *Machine) copyVal(v Value) Value {
 			return v
 		}
 		return v.clone(m)
+	case poison:
+		if m.inInit == 0 {
+			panic(engineErr{"use of a package-level variable whose initializer the engine could not execute: " + v.why})
+		}
 	}
 	return v
 }
@@ -311,6 +315,10 @@ func (m *Machine) copyVal(v Value) Value {
 // storeInto writes v into the cell *addr in place (preserving the identity of
 // nested aggregates so that interior pointers stay valid).
 func (m *Machine) storeInto(addr *Value, v Value) {
+	if _, bad := v.(poison); bad {
+		*addr = v
+		return
+	}
 	switch cur := (*addr).(type) {
 	case Struct:
 		rhs, ok := v.(Struct)
